@@ -46,7 +46,7 @@ pub fn run(rep: &mut Report, tier: &str, seed: u64) {
     let (n_programs, limit) = if tier == "thorough" { (500, 120) } else { (50, 24) };
     let mut runner = Runner::new("C08");
     campaign(rep, &mut runner, seed, n_programs, 2, true,
-        &|pi, r| Opts { fragment: true, fault_pct: if pi % 4 == 3 { 100 } else { 0 }, max_stanzas: 4, allow_print: false, universal: r.chance(1, 2), probe: false, scoped_heavy: pi % 3 == 0, keywordish_names: false },
+        &|pi, r| Opts { fragment: true, fault_pct: if pi % 4 == 3 { 100 } else { 0 }, max_stanzas: 4, allow_print: false, universal: r.chance(1, 2), probe: false, scoped_heavy: pi % 3 == 0, keywordish_names: false, static_fault: 0 },
         &mut |rep, runner, case, r, _pi| {
             let globals = crate::props::common::supply_globals(r, &case.loaded.program);
             let cfg = RunCfg { lazy: true, globals: globals.clone(), outer_globals: vec![], debug: None, cancel_at: None };
@@ -92,7 +92,7 @@ pub fn run(rep: &mut Report, tier: &str, seed: u64) {
                 }
                 // model on a few permutations
                 if pi2 == 1 || pi2 == perms.len() - 1 {
-                    let loaded = crate::props::common::Loaded { program: crate::gen::dsl::Program { text: text.clone(), header: prog.header.clone(), stanzas: vec![], globals: prog.globals.clone(), stanza_count: n, has_fault: false, features: vec![] }, file };
+                    let loaded = crate::props::common::Loaded { program: crate::gen::dsl::Program { text: text.clone(), header: prog.header.clone(), stanzas: vec![], globals: prog.globals.clone(), stanza_count: n, has_fault: false, features: vec![], static_fault: None }, file };
                     let mi = model_input(&loaded.file, &case.source.tree, &case.source.src, case.info);
                     let c2 = Case { tsg: &text, loaded: &loaded, source: case.source, info: case.info, mi: &mi };
                     runner.table = crate::oracle::OracleTable::new();
